@@ -636,3 +636,42 @@ def np_diff(eng, st, args, kwargs):
     n = a.shape[0]
     m = max(n - 1, 0) if isinstance(n, int) else maxv(sub(n, 1), 0)
     yield new_ref(st, ArrV((m,), lambda i, a=a: sub(a.at(add(i, 1)), a.at(i)), a.dtype if a.dtype != 'bool' else 'int')), st
+
+
+@lib('numpy.argwhere')
+def np_argwhere(eng, st, args, kwargs):
+    m = arr_of(eng, st, args[0])
+    if m.ndim != 1:
+        raise OutOfSubset('argwhere of a 2-D array')
+    idx = ArrV(m.shape, lambda i: i, 'int')
+    c = compress(eng, st, idx, ArrV(m.shape, lambda i, m=m: to_bool(m.at(i)), 'bool'))
+    co = st.heap[c.oid]
+    yield new_ref(st, ArrV((co.shape[0], 1), lambda i, j, co=co: co.at(i), 'int')), st
+
+
+@lib('numpy.vstack')
+def np_vstack(eng, st, args, kwargs):
+    parts = calls.seq_items(eng, args[0], st)
+    blocks = []
+    for p in parts:
+        a = arr_of(eng, st, p)
+        if a is None:
+            raise OutOfSubset('vstack of a scalar')
+        if a.ndim == 1:
+            a = ArrV((1, a.shape[0]), lambda i, j, a=a: a.at(j), a.dtype)
+        blocks.append(a)
+    w = blocks[0].shape[1]
+    for b in blocks[1:]:
+        eng.oblige('safe', 'vstack-width', st, eq(b.shape[1], w))
+    total = 0
+    offs = []
+    for b in blocks:
+        offs.append(total)
+        total = add(total, b.shape[0])
+
+    def at(i, j, blocks=blocks, offs=offs):
+        r = blocks[-1].at(sub(i, offs[-1]), j)
+        for b, o in reversed(list(zip(blocks[:-1], offs[:-1]))):
+            r = ite(lt(i, add(o, b.shape[0])), b.at(sub(i, o), j), r)
+        return r
+    yield new_ref(st, ArrV((total, w), at, blocks[0].dtype if all(b.dtype == blocks[0].dtype for b in blocks) else 'real')), st
